@@ -77,7 +77,7 @@ def compose(a, b, bg=False):
         ar = ar[:-1] + ["<SP>", "&", "<SP>"]
         at = at[:-1] + [dict(at[-1], Background=True)]
     return {"ch": a["ch"] + ["+&" if bg else "+"] + b["ch"], "r": ar + b["r"], "v": [l for l in a["v"] if l in b["v"]], "x": [],
-            "t": {"k": "File", "Stmts": at + b["t"]["Stmts"]}}
+            "t": {"k": "File", "Stmts": at + b["t"]["Stmts"]}, "parts": (None, None) if bg else (a["r"], b["r"])}
 
 
 def with_compositions(vecs, nbfs):
@@ -190,6 +190,9 @@ def trace_record(i, src, t):
 
 
 # ------------------------------------------------------------------------------------------------ parts
+COMMENT_BLOCKS = ["# note \\\n", "# note \\\n\n", "# note\n", "\t# a \\\n# b\\\n", "#\\\n", "# x \\\\\n"]
+
+
 def is_composed(v):
     return "+" in v["ch"] or "+&" in v["ch"]
 
@@ -248,6 +251,16 @@ def part_inter(ck, h, vecs, layouts):
             if L["name"] in ("oneline", "lines") and src.rstrip("\n") != src:
                 # the same program when the input ends without a final newline
                 items.append({"src": src.rstrip("\n"), "cont": [], "stops": False, "layout": L["name"] + "-nonl"})
+            if L["name"] == "lines" and (is_composed(v) or len(jobs) % 3 == 0):
+                # comment lines typed between / before the statements: a comment runs to the end of its line, also
+                # when its last byte is a backslash (no continuation), so every such line is a finished, empty line
+                k = len(jobs) % len(COMMENT_BLOCKS)
+                a, b = v.get("parts", (None, None))
+                if a is not None:
+                    csrc = syn.render(a, L) + COMMENT_BLOCKS[k] + syn.render(b, L)
+                else:
+                    csrc = COMMENT_BLOCKS[k] + src
+                items.append({"src": csrc, "cont": [], "stops": False, "layout": "lines+commentlines"})
         jobs.append({"items": items, "langs": v["v"]})
     res = vlib.run_harness(h, "inter", jobs, shards=6, timeout=3000)
     uniq, members = {}, {}     # canonical trace -> id ; id -> [count, shortest (item, trace)]
@@ -283,7 +296,7 @@ def part_inter(ck, h, vecs, layouts):
                     ck.notes["unannotated_samples"].append({"src": it["src"], "lang": t["lang"], "why": t["unannotated"]})
                 continue
             rec = trace_record(0, it["src"], t)
-            key = json.dumps([rec[k] for k in ("open", "done", "dash", "lastnl", "total", "stop", "ev")])
+            key = json.dumps([rec[k] for k in ("open", "done", "dash", "lastnl", "total", "stop", "ev")])      # (keep/no-keep runs with equal events share one record)
             i = uniq.get(key)
             if i is None:
                 i = uniq[key] = len(recs)
@@ -317,7 +330,7 @@ def judge_inter(ck, recs, members, verdict):
         ck.cov["traces_validated_against_impl"] += n
         if any(e[0] == 1 and e[2] == 1 for e in rec["ev"]):
             nontrivial += n
-        vec = {"part": "inter", "stop": rec["stop"],
+        vec = {"part": "inter", "stop": rec["stop"], "keep_comments": not t.get("nocomments"),
                "job": {"items": [{"src": it["src"], "cont": it["cont"], "stops": rec["stop"] > 0}], "langs": [t["lang"]]}}
         if v[0] == "REJ":
             key = "interactive|" + v[1]["why"]
